@@ -36,6 +36,7 @@ std::vector<String> CircularReferenceError::GetPath() const
 struct SerializeStack
 {
 	std::deque<SerializeStackEntry> Entries;
+	bool HideNoUserView = false;
 
 	inline void Push(const String& name, const Value& val)
 	{
@@ -170,6 +171,9 @@ static Object::Ptr SerializeObject(const Object::Ptr& input, int attributeTypes,
 		if (strcmp(field.Name, "type") == 0)
 			continue;
 
+		if (stack.HideNoUserView && (field.Attributes & FANoUserView))
+			continue;
+
 		Value value = input->GetField(i);
 		stack.Push(field.Name, value);
 
@@ -297,9 +301,10 @@ void icinga::AssertNoCircularReferences(const Value& value)
 	SerializeInternal(value, FAConfig, stack, true);
 }
 
-Value icinga::Serialize(const Value& value, int attributeTypes)
+Value icinga::Serialize(const Value& value, int attributeTypes, bool hideNoUserView)
 {
 	SerializeStack stack;
+	stack.HideNoUserView = hideNoUserView;
 	return SerializeInternal(value, attributeTypes, stack, false);
 }
 
